@@ -1,5 +1,6 @@
 from copy import deepcopy
 from ..circuit import QubitCircuit
+from ..circuit.circuit import _condition
 
 
 __all__ = ["to_chain_structure"]
@@ -56,11 +57,17 @@ def to_chain_structure(qc, setup="linear"):
                         # is even.
                         if end == gate.controls[0]:
                             qc_t.add_gate(
-                                gate.name, targets=[i], controls=[i + 1]
+                                gate.name,
+                                targets=[i],
+                                controls=[i + 1],
+                                **_condition(gate),
                             )
                         else:
                             qc_t.add_gate(
-                                gate.name, targets=[i + 1], controls=[i]
+                                gate.name,
+                                targets=[i + 1],
+                                controls=[i],
+                                **_condition(gate),
                             )
 
                     elif (
@@ -73,11 +80,17 @@ def to_chain_structure(qc, setup="linear"):
                         qc_t.add_gate("SWAP", targets=[i, i + 1])
                         if end == gate.controls[0]:
                             qc_t.add_gate(
-                                gate.name, targets=[i + 1], controls=[i + 2]
+                                gate.name,
+                                targets=[i + 1],
+                                controls=[i + 2],
+                                **_condition(gate),
                             )
                         else:
                             qc_t.add_gate(
-                                gate.name, targets=[i + 2], controls=[i + 1]
+                                gate.name,
+                                targets=[i + 2],
+                                controls=[i + 1],
+                                **_condition(gate),
                             )
                         qc_t.add_gate("SWAP", [i, i + 1])
                         i += 1
@@ -107,11 +120,17 @@ def to_chain_structure(qc, setup="linear"):
                     ):
                         if end == gate.controls[0]:
                             temp.add_gate(
-                                gate.name, targets=[i + 1], controls=[i]
+                                gate.name,
+                                targets=[i + 1],
+                                controls=[i],
+                                **_condition(gate),
                             )
                         else:
                             temp.add_gate(
-                                gate.name, targets=[i], controls=[i + 1]
+                                gate.name,
+                                targets=[i],
+                                controls=[i + 1],
+                                **_condition(gate),
                             )
 
                     elif (
@@ -121,11 +140,17 @@ def to_chain_structure(qc, setup="linear"):
                         temp.add_gate("SWAP", targets=[i, i + 1])
                         if end == gate.controls[0]:
                             temp.add_gate(
-                                gate.name, targets=[i + 2], controls=[i + 1]
+                                gate.name,
+                                targets=[i + 2],
+                                controls=[i + 1],
+                                **_condition(gate),
                             )
                         else:
                             temp.add_gate(
-                                gate.name, targets=[i + 1], controls=[i + 2]
+                                gate.name,
+                                targets=[i + 1],
+                                controls=[i + 2],
+                                **_condition(gate),
                             )
                         temp.add_gate("SWAP", [i, i + 1])
                         i += 1
@@ -146,6 +171,7 @@ def to_chain_structure(qc, setup="linear"):
                                 gate.name,
                                 (end + gate.targets[0]) % N,
                                 (end + gate.controls[0]) % N,
+                                **_condition(gate),
                             )
                         else:
                             qc_t.add_gate(
@@ -154,6 +180,7 @@ def to_chain_structure(qc, setup="linear"):
                                     (end + gate.targets[0]) % N,
                                     (end + gate.targets[1]) % N,
                                 ],
+                                **_condition(gate),
                             )
                     elif j == N - end - 2:
                         if gate.name in ["CNOT", "CSIGN"]:
@@ -161,6 +188,7 @@ def to_chain_structure(qc, setup="linear"):
                                 gate.name,
                                 (end + gate.targets[0]) % N,
                                 (end + gate.controls[0]) % N,
+                                **_condition(gate),
                             )
                         else:
                             qc_t.add_gate(
@@ -169,6 +197,7 @@ def to_chain_structure(qc, setup="linear"):
                                     (end + gate.targets[0]) % N,
                                     (end + gate.targets[1]) % N,
                                 ],
+                                **_condition(gate),
                             )
                     else:
                         if gate.name in ["CNOT", "CSIGN"]:
@@ -176,6 +205,7 @@ def to_chain_structure(qc, setup="linear"):
                                 gate.name,
                                 (end + gate.targets[0]) % N,
                                 (end + gate.controls[0]) % N,
+                                **_condition(gate),
                             )
                         else:
                             qc_t.add_gate(
@@ -184,11 +214,17 @@ def to_chain_structure(qc, setup="linear"):
                                     (end + gate.targets[0]) % N,
                                     (end + gate.targets[1]) % N,
                                 ],
+                                **_condition(gate),
                             )
                     j = j + 1
 
             elif (end - start) == N - 1:
-                qc_t.add_gate(gate.name, gate.targets, gate.controls)
+                qc_t.add_gate(
+                    gate.name,
+                    gate.targets,
+                    gate.controls,
+                    **_condition(gate),
+                )
 
         elif gate.name in swap_gates:
             start = min([gate.targets[0], gate.targets[1]])
@@ -201,7 +237,10 @@ def to_chain_structure(qc, setup="linear"):
                 while i < end:
                     if start + end - i - i == 1 and (end - start + 1) % 2 == 0:
                         qc_t.add_gate(
-                            gate.name, [i, i + 1], arg_value=gate.arg_value
+                            gate.name,
+                            [i, i + 1],
+                            arg_value=gate.arg_value,
+                            **_condition(gate),
                         )
                     elif (start + end - i - i) == 2 and (
                         end - start + 1
@@ -211,6 +250,7 @@ def to_chain_structure(qc, setup="linear"):
                             gate.name,
                             [i + 1, i + 2],
                             arg_value=gate.arg_value,
+                            **_condition(gate),
                         )
                         qc_t.add_gate("SWAP", [i, i + 1])
                         i += 1
@@ -230,7 +270,10 @@ def to_chain_structure(qc, setup="linear"):
                         and (N - end + start + 1) % 2 == 0
                     ):
                         temp.add_gate(
-                            gate.name, [i, i + 1], arg_value=gate.arg_value
+                            gate.name,
+                            [i, i + 1],
+                            arg_value=gate.arg_value,
+                            **_condition(gate),
                         )
 
                     elif (
@@ -242,6 +285,7 @@ def to_chain_structure(qc, setup="linear"):
                             gate.name,
                             [i + 1, i + 2],
                             arg_value=gate.arg_value,
+                            **_condition(gate),
                         )
                         temp.add_gate("SWAP", [i, i + 1])
                         i += 1
@@ -264,6 +308,7 @@ def to_chain_structure(qc, setup="linear"):
                                 (end + gate.targets[1]) % N,
                             ],
                             arg_value=gate.arg_value,
+                            **_condition(gate),
                         )
                     elif j == N - end - 2:
                         qc_t.add_gate(
@@ -273,6 +318,7 @@ def to_chain_structure(qc, setup="linear"):
                                 (end + gate.targets[1]) % N,
                             ],
                             arg_value=gate.arg_value,
+                            **_condition(gate),
                         )
                     else:
                         qc_t.add_gate(
@@ -282,6 +328,7 @@ def to_chain_structure(qc, setup="linear"):
                                 (end + gate.targets[1]) % N,
                             ],
                             arg_value=gate.arg_value,
+                            **_condition(gate),
                         )
                     j = j + 1
 
